@@ -89,12 +89,22 @@ _warmed = set()
 
 
 def warmup(engine):
+    """Everything lazy happens here, WITHOUT the per-run time limit: the library's own lazy
+    imports (Environment() imports unified_planning.engines, which takes seconds on a loaded
+    machine -- an alarm in the middle of an import leaves half-initialised modules behind and
+    every later run of the process fails) and the first execution of each code path."""
     key = (engine.name, engine.prop)
     if key in _warmed:
         return
     _warmed.add(key)
+    import unified_planning.shortcuts  # noqa: F401
+    import unified_planning.engines  # noqa: F401
+    import unified_planning.engines.compilers  # noqa: F401
+    from unified_planning.environment import Environment
+
+    Environment()
     for s in engine.warmup_scripts():
-        execute_script(engine, s)
+        execute_script(engine, s, limit_s=600.0, attempts=1)
 
 
 # --------------------------------------------------------------------- minimise
